@@ -29,7 +29,11 @@ def c11_stages(ctx):
                 ("conc4", ["conc=mem"]), ("conc4", ["conc=min"])]
     forced = 0
     for name, ads in plan:
-        sums = graph_stage(ctx, "cache-%s-%s" % (name, ads[0].split("=")[1]), "MC_Cache.tla", "Cache.%s.%s.cfg" % (name, t), "cacheconc", ads,
+      # the store with Remove cleans a failed fill up in a gated step of its own; the others have nothing to gate there
+      for group, suffix in (([a for a in ads if a == "conc=mem"], ""), ([a for a in ads if a != "conc=mem"], ".norm")):
+        if not group:
+            continue
+        sums = graph_stage(ctx, "cache-%s-%s" % (name, group[0].split("=")[1]), "MC_Cache.tla", "Cache.%s.%s%s.cfg" % (name, t, suffix), "cacheconc", group,
                            workers=2, vh_workers=4)
         for s in sums:
             x = s.get("extra") or {}
